@@ -322,33 +322,6 @@ def check(repo: Repo, run: Run) -> None:
                line=ly.lineno)
 
 
-def _window_update_ok(fn: ast.FunctionDef, var: str) -> bool:
-    """Inside the while loop the window variable is updated exactly as  var = var[1:] + <one byte read from the stream>."""
-    reader = fn.args.args[0].arg
-    loops = [n for n in ast.walk(fn) if isinstance(n, ast.While)]
-    if len(loops) != 1:
-        return False
-    assigns = [n for n in ast.walk(loops[0]) if isinstance(n, (ast.Assign, ast.AugAssign))
-               and any(isinstance(t, ast.Name) and t.id == var for t in (n.targets if isinstance(n, ast.Assign) else [n.target]))]
-    if len(assigns) != 1 or not isinstance(assigns[0], ast.Assign):
-        return False
-    v = assigns[0].value
-    if not (isinstance(v, ast.BinOp) and isinstance(v.op, ast.Add)):
-        return False
-    left, right = v.left, v.right
-    ok_left = isinstance(left, ast.Subscript) and isinstance(left.value, ast.Name) and left.value.id == var \
-        and isinstance(left.slice, ast.Slice) and left.slice.upper is None and left.slice.step is None \
-        and isinstance(left.slice.lower, ast.Constant) and left.slice.lower.value == 1
-    one_byte = f"{reader}.read(1)"
-    if isinstance(right, ast.Name):
-        src = [n for n in ast.walk(loops[0]) if isinstance(n, ast.Assign) and any(isinstance(t, ast.Name) and t.id == right.id
-                                                                                     for t in n.targets)]
-        ok_right = len(src) == 1 and ast.unparse(src[0].value) == one_byte
-    else:
-        ok_right = ast.unparse(right) == one_byte
-    return ok_left and ok_right
-
-
 def _state_name(path: T) -> Optional[str]:
     """self.<name>... or a local accumulation variable -> name."""
     cur = path
